@@ -150,6 +150,8 @@ func c15(r *Report, s *Sem) {
 	K := r.Rule("K", "blocking-operation inventory: every channel send/receive, blocking select, sleep, raw connection I/O, TLS handshake and WebSocket I/O reachable from a context-taking operation (transport Send/Receive/SetEncryption, listener Accept, channel sends, command processing, both EstablishSession and FinishSession) is abortable by that context: K1 an arm of a select that also waits on ctx.Done(); K2 deadline-polled I/O in a loop that re-checks the context, with poll constant ≤ 5 s; K3 a wait for a helper goroutine just forced to fail by an immediate deadline on the same connection; K4 a send that cannot block (own buffered channel, one send per call); K5 listed with a reason", 15)
 	D := r.Rule("D", "deadlines: the TCP wrappers' poll interval is a constant ≤ 5 s and honours an earlier context deadline; the TLS handshake's deadline derives from the context and its fallback does not exceed the poll interval", 3)
 
+	L := r.Rule("L", "waiting for a mutex cannot be cancelled, so no sync.Mutex/RWMutex is held across a wait: wherever a mutex is held, the instruction is neither a blocking primitive nor a call that reaches one inside the package — except the send mutex around Transport.Send (listed)", 1)
+
 	// roots
 	var roots []*ssa.Function
 	add := func(f *ssa.Function) {
@@ -209,6 +211,15 @@ func c15(r *Report, s *Sem) {
 		}
 		return "", false
 	}
+	checkNoMutexAcrossWaits(r, s, L, func(bs blockSite) bool {
+		if _, ok := listed(bs); ok {
+			return true
+		}
+		if sd, ok := bs.in.(*ssa.Send); ok && (neverBlocks(sd) || sendsOnOwnBufferedSignal(bs.in)) {
+			return true // a signal on the object's own buffered channel is not a wait for the peer or the context
+		}
+		return bs.fn.Parent() != nil && (bs.kind == "chan send" || bs.kind == "chan receive") && helperDrained(bs)
+	})
 	// ---- E: what happens once the context has ended
 	E := r.Rule("E", "prompt at expiry: on the `<-ctx.Done()` arm of a select in an inventoried function nothing can run the stop-and-wait routine (its wait for the receiver is bounded only by the transport's poll interval — acceptable after a terminal envelope, not when a deadline has passed)", 8)
 	if a.stopFn != nil {
@@ -766,4 +777,107 @@ func isDialHandOff(s *Sem, bs blockSite) bool {
 	}
 	n := namedOf(el.Elem())
 	return n != nil && implementsTransport(s, types.NewPointer(n)) && len(bs.fn.Blocks) == 1
+}
+
+// checkNoMutexAcrossWaits: rule L of C15.
+func checkNoMutexAcrossWaits(r *Report, s *Sem, L string, exempt func(blockSite) bool) {
+	p := r.P
+	a := s.anchors()
+	// functions that contain a blocking site themselves
+	blocks := map[*ssa.Function][]blockSite{}
+	for _, fn := range p.LimeFuncs() {
+		for _, bs := range blockingSites(fn) {
+			if !exempt(bs) {
+				blocks[fn] = append(blocks[fn], bs)
+			}
+		}
+	}
+	reachCache := map[*ssa.Function]*blockSite{}
+	var firstBlock func(g *ssa.Function) *blockSite
+	firstBlock = func(g *ssa.Function) *blockSite {
+		if v, ok := reachCache[g]; ok {
+			return v
+		}
+		reachCache[g] = nil
+		var fns []*ssa.Function
+		for f := range p.reachable(g) {
+			fns = append(fns, f)
+		}
+		sort.Slice(fns, func(i, j int) bool { return fns[i].Pos() < fns[j].Pos() })
+		for _, f := range fns {
+			if bs := blocks[f]; len(bs) > 0 {
+				reachCache[g] = &bs[0]
+				break
+			}
+		}
+		return reachCache[g]
+	}
+	n := 0
+	for _, fn := range p.LimeFuncs() {
+		hl := heldLocks(fn)
+		if len(hl) == 0 {
+			continue
+		}
+		seen := map[string]bool{}
+		eachInstr(fn, func(in ssa.Instruction) {
+			ls := hl[in]
+			if len(ls) == 0 {
+				return
+			}
+			what, detail := "", ""
+			for _, bs := range blocks[fn] {
+				if bs.in == in {
+					what = bs.kind
+				}
+			}
+			if c, ok := in.(*ssa.Call); ok && what == "" {
+				if op, _ := mutexOp(c); op != "" {
+					return
+				}
+				var callees []*ssa.Function
+				if g := c.Call.StaticCallee(); g != nil {
+					callees = []*ssa.Function{g}
+				} else {
+					callees = p.calleesAt(c)
+				}
+				for _, g := range callees {
+					if g.Pkg != p.Lime {
+						continue
+					}
+					if bs := firstBlock(g); bs != nil {
+						what = "call of " + fnName(g)
+						if c.Call.IsInvoke() {
+							what = "call of " + c.Call.Method.Name() + " on " + types.TypeString(c.Call.Value.Type(), func(*types.Package) string { return "" })
+						}
+						detail = "reaches " + bs.kind + " in " + fnName(bs.fn)
+						break
+					}
+				}
+			}
+			if what == "" {
+				return
+			}
+			for _, mu := range sortedKeys(ls) {
+				key := mu + " across " + what
+				if seen[key] {
+					continue
+				}
+				seen[key] = true
+				n++
+				reason, ok := "", false
+				switch {
+				case a.sendMu != nil && strings.HasSuffix(mu, ":"+a.sendMu.Name()):
+					reason, ok = "the send mutex serialises whole envelopes on the wire (C04); its holder is itself bounded by its context (K), and contention between operations is outside the statement ('in isolation')", true
+				}
+				if ok {
+					r.Trivial(L, "func "+fnName(fn)+" / "+key, p.instrPos(in), true, "listed: "+reason)
+				} else {
+					r.Check(L, "func "+fnName(fn)+" / "+key, p.instrPos(in), false, "a goroutine waiting for this mutex cannot be cancelled while the holder waits; "+detail)
+				}
+			}
+		})
+	}
+	if n == 0 {
+		r.Undecided(L, "mutexes held across waits", "-", "not even the send mutex around Transport.Send was found")
+	}
 }
